@@ -65,27 +65,29 @@ func Open(filename string) (*ReaderAt, error) {
 		return nil, err
 	}
 	r := &ReaderAt{}
-	if w := simrt.W(); w != nil {
-		if rel, ok := w.Rel(filename); ok {
-			r.w = w
-			r.id = w.MappingOpened(rel)
-		}
-	}
 	size := fi.Size()
-	if size == 0 {
-		r.data = make([]byte, 0)
-		return r, nil
-	}
 	if size < 0 {
 		return nil, fmt.Errorf("mmap: file %q has negative size", filename)
 	}
-	data, err := syscall.Mmap(int(f.Fd()), 0, int(size), syscall.PROT_READ, syscall.MAP_SHARED)
-	if err != nil {
-		if r.w != nil {
-			r.w.MappingClosed(r.id)
+	if size == 0 {
+		r.data = make([]byte, 0)
+	} else {
+		data, err := syscall.Mmap(int(f.Fd()), 0, int(size), syscall.PROT_READ, syscall.MAP_SHARED)
+		if err != nil {
+			return nil, err
 		}
-		return nil, err
+		r.data = data
 	}
-	r.data = data
+	if w := simrt.W(); w != nil {
+		if rel, ok := w.Rel(filename); ok {
+			r.w = w
+			data := r.data
+			r.id = w.MappingOpened(rel, func() {
+				if len(data) > 0 {
+					_ = syscall.Munmap(data)
+				}
+			})
+		}
+	}
 	return r, nil
 }
